@@ -1,6 +1,10 @@
 #!/bin/bash
 # C16: in-process explorer, then the CLI layer
 cd /verif
+case " $* " in *" --replay "*)
+  f=$(echo "$*" | sed 's/.*--replay *//; s/ .*//')
+  case "$(basename "$f")" in cli_*) exec python3 /verif/cli/special.py C16 "$@";; *) exec /verif/target/release/vcheck C16 "$@";; esac;;
+esac
 /verif/target/release/vcheck C16 "$@"; a=$?
 python3 /verif/cli/special.py C16 "$@"; b=$?
 if [ $a -eq 2 ] || [ $b -eq 2 ]; then exit 2; fi
